@@ -218,6 +218,10 @@ func ReplayMain(id, path string, n int) int {
 	for i := 0; i < n; i++ {
 		v := p.Run(r.Case)
 		fmt.Printf("replay %d/%d: %s %s %s\n", i+1, n, v.Status, v.Key, v.What)
+		if os.Getenv("VERIF_VERBOSE") != "" {
+			b, _ := json.Marshal(v.Counters)
+			fmt.Printf("   counters: %s\n   sample: %v\n", b, v.Sample)
+		}
 		if v.Status == Violated {
 			viol++
 		}
